@@ -110,14 +110,21 @@ def run_check(mod, tier, seed, replay=None):
             return core.EXIT_HARNESS
         vs = [core.Violation.from_json(v) for v in val["violations"]]
         want = (rp["expected"]["property"], rp["expected"]["clause"])
-        same = [v for v in vs if v.key() == want]
+        # recorded findings are reported as such in a replay too and never count as the reproduction
+        unknown, known = classify(vs, findings)
+        for idx, cnt in sorted(known.items()):
+            rec = findings[idx]
+            print("KNOWN-FINDING: property=%s clause=%s %s (seen %d times in this replay)" % (prop, rec["clause"], rec["what"], cnt))
+        same = [v for v in unknown if v.key() == want]
+        exact = [v for v in same if core.digest(v.identity) == core.digest(rp["expected"].get("identity"))]
+        same = exact or same
         if same:
             ok_digest = val["log_digest"] == rp["expected"].get("log_digest")
             print("REPLAY reproduced property=%s clause=%s log_digest_match=%s" % (prop, want[1], ok_digest))
             print(json.dumps(same[0].to_json(), indent=1)[:3000])
             print("VIOLATION property=%s replay=%s" % (prop, replay))
             return core.EXIT_VIOLATION
-        print("REPLAY did not reproduce property=%s clause=%s (violations now: %s)" % (prop, want[1], [v.clause for v in vs]))
+        print("REPLAY did not reproduce property=%s clause=%s (other violations now: %s)" % (prop, want[1], [v.clause for v in unknown]))
         return core.EXIT_OK
 
     # ------------------------------------------------------------------ exploration
